@@ -49,7 +49,7 @@ class Facts:
                 f.hir = model_std_hir(f.hir, self)
                 f.x['hir'] = f.hir
         for f in self.fns.values():
-            m2 = model_std_calls(f.body.mir)
+            m2 = model_std_calls(f.body.mir, self, f.path)
             if m2 is not None:
                 f.x['mir'] = m2
                 f.body = Body(self, m2, f.path)
@@ -520,6 +520,8 @@ class Body:
                     base = base[1] if pr['f'] == '0' else ('overflow', base[1])
                 elif base[0] == 'tuple' and pr['f'].isdigit() and int(pr['f']) < len(base[1]):
                     base = base[1][int(pr['f'])]
+                elif base[0] == 'agg' and base[1] == 'closure' and pr['f'].isdigit() and int(pr['f']) < len(base[2]):
+                    base = base[2][int(pr['f'])]         # captured variable of a closure value
                 elif base[0] == 'adt' and len(base) == 4 and pr['f'] in dict(base[3]):
                     base = dict(base[3])[pr['f']]        # field of a struct literal
                 elif pr.get('of') in self.facts.flat and base[0] == 'field' and isinstance(base[2], str):
@@ -1820,7 +1822,7 @@ def _flatten_hir(n, flat):
 # --------------------------------------------------------------------------- models of std calls
 
 
-def model_std_calls(mir):
+def model_std_calls(mir, facts=None, owner=None):
     """`Option::ok_or(opt, err)` as the match it stands for:
          switch discriminant(opt) { Some => dest = Ok((opt as Some).0), None => dest = Err(err) }
     so that value-flow and path rules see the same thing as for `if let Some(x) = opt { .. } else { return Err(err) }`.
@@ -1854,6 +1856,68 @@ def model_std_calls(mir):
         nb['stmts'] = list(nb['stmts']) + [{'k': 'assign', 'lhs': {'l': d, 'p': []}, 'rv': {'k': 'discr', 'place': opt}, 'line': line, 'exp': False}]
         nb['term'] = {'k': 'switch', 'discr': {'move': {'l': d, 'p': []}}, 'targets': [[0, none_bb], [1, some_bb]], 'otherwise': some_bb, 'line': line, 'exp': False,
                       'modelled': p}
+    # ---- `iter.find_map(closure)` over a Range: the loop it stands for, with the closure's body in place
+    #        loop { match Range::next(it) { None => break None, Some(i) => if let r @ Some(_) = closure(i) { break r } } }
+    src_blocks = blocks if blocks is not None else mir['blocks']
+    for bi in range(len(src_blocks)):
+        blk = src_blocks[bi]
+        t = blk['term']
+        if t['k'] != 'call' or blk.get('cleanup') or t.get('target') is None or facts is None:
+            continue
+        if (t['callee'].get('decl') or t['callee'].get('path')) != 'std::iter::Iterator::find_map' or len(t['args']) != 2:
+            continue
+        cur_locals = locals_ if locals_ is not None else mir['locals']
+        itp, clp = op_place(t['args'][0]), op_place(t['args'][1])
+        if itp is None or clp is None or itp['p'] or clp['p']:
+            continue
+        if not re.search(r'^&mut std::ops::Range<', cur_locals[itp['l']]['ty']):
+            continue
+        # the closure value: a local built by a closure aggregate
+        cdef = None
+        for b2 in src_blocks:
+            for st in b2['stmts']:
+                if st['k'] == 'assign' and st['lhs']['l'] == clp['l'] and not st['lhs']['p'] and st['rv']['k'] == 'agg' and st['rv'].get('agg') == 'closure':
+                    cdef = st['rv'].get('closure') if cdef is None else False
+        g = facts.fns.get(cdef) if cdef else None
+        if g is None or g.body.mir['arg_count'] != 2:
+            continue
+        if blocks is None:
+            blocks = [dict(b) for b in mir['blocks']]
+            locals_ = list(mir['locals'])
+        line = t['line']
+        base = len(locals_)
+        L_n, L_d1, L_arg, L_cref, L_r, L_d2 = range(base, base + 6)
+        env_ty = g.body.mir['locals'][1]['ty']
+        locals_ += [{'ty': 'std::option::Option<usize>', 'user': False, 'mut': False, 'modelled': 'find_map'},
+                    {'ty': 'isize', 'user': False, 'mut': False}, {'ty': 'usize', 'user': False, 'mut': False},
+                    {'ty': env_ty, 'user': False, 'mut': False}, {'ty': g.body.mir['locals'][0]['ty'], 'user': False, 'mut': True},
+                    {'ty': 'isize', 'user': False, 'mut': False}]
+        nb = len(blocks)
+        H, H2, B, C, S, N = range(nb, nb + 6)
+        next_callee = {'path': 'std::iter::range::<impl std::iter::Iterator for std::ops::Range<usize>>::next', 'decl': 'std::iter::Iterator::next',
+                       'key': 'std::iter::range::<impl std::iter::Iterator for std::ops::Range<usize>>::next', 'local': False, 'crate': 'core'}
+        mk = lambda **kw: dict({'line': line, 'exp': False}, **kw)
+        by_ref = env_ty.startswith('&')
+        blocks.append({'cleanup': False, 'stmts': [], 'term': mk(k='call', callee=next_callee, args=[{'copy': {'l': itp['l'], 'p': []}}], dest={'l': L_n, 'p': []}, target=H2, fn_line=line)})
+        blocks.append({'cleanup': False, 'stmts': [mk(k='assign', lhs={'l': L_d1, 'p': []}, rv={'k': 'discr', 'place': {'l': L_n, 'p': []}})],
+                       'term': mk(k='switch', discr={'move': {'l': L_d1, 'p': []}}, targets=[[0, N], [1, B]], otherwise=B)})
+        cref_rv = {'k': 'ref', 'mut': True, 'place': {'l': clp['l'], 'p': []}} if by_ref else {'k': 'use', 'op': {'copy': {'l': clp['l'], 'p': []}}}
+        blocks.append({'cleanup': False, 'stmts': [mk(k='assign', lhs={'l': L_arg, 'p': []}, rv={'k': 'use', 'op': {'copy': {'l': L_n, 'p': [{'down': 'Some', 'vi': 1}, {'f': '0', 'i': 0, 'ty': 'usize'}]}}}),
+                                                 mk(k='assign', lhs={'l': L_cref, 'p': []}, rv=cref_rv)],
+                       'term': mk(k='call', callee={'path': g.path, 'key': g.path, 'local': True, 'crate': facts.crate}, args=[{'move': {'l': L_cref, 'p': []}}, {'move': {'l': L_arg, 'p': []}}],
+                                  dest={'l': L_r, 'p': []}, target=C, fn_line=line)})
+        blocks.append({'cleanup': False, 'stmts': [mk(k='assign', lhs={'l': L_d2, 'p': []}, rv={'k': 'discr', 'place': {'l': L_r, 'p': []}})],
+                       'term': mk(k='switch', discr={'move': {'l': L_d2, 'p': []}}, targets=[[1, S]], otherwise=H)})
+        blocks.append({'cleanup': False, 'stmts': [mk(k='assign', lhs=t['dest'], rv={'k': 'use', 'op': {'move': {'l': L_r, 'p': []}}})], 'term': mk(k='goto', target=t['target'])})
+        none_rv = {'k': 'agg', 'agg': 'adt', 'adt': 'std::option::Option', 'variant': 'None', 'vi': 0, 'adt_args': [], 'fields': [], 'ops': []}
+        blocks.append({'cleanup': False, 'stmts': [mk(k='assign', lhs=t['dest'], rv=none_rv)], 'term': mk(k='goto', target=t['target'])})
+        blocks[bi] = dict(blocks[bi])
+        blocks[bi]['term'] = mk(k='goto', target=H, modelled='Iterator::find_map')
+        tmp = dict(mir)
+        tmp['blocks'], tmp['locals'] = blocks, locals_
+        tmp2, inl = inline_mir(tmp, facts, owner or '?', lambda g_, t_, gp=g.path: g_.path == gp, depth=1)
+        blocks, locals_ = tmp2['blocks'], tmp2['locals']
+        src_blocks = blocks
     if blocks is None:
         return None
     out = dict(mir)
